@@ -6,9 +6,11 @@ import Datacake.Lemmas.Orswot
 namespace Datacake.OrSwot
 open Datacake.Lww Datacake.Map Datacake.Ts
 
-/-- A valid timestamp (what clocks issue): a `u64` with `fractional < 250`, not in the very first
-4 ms of the datacake epoch (so that the saturating subtraction in `forgive` cannot tie). -/
-def ValidStamp (t : Nat) : Prop := t < 18446744073709551616 ∧ fractional t < 250 ∧ 0 < dts t
+/-- A valid timestamp (what clocks issue and `HLCTimestamp::new` builds): a `u64` with
+`fractional < 250`.  (Before the `fix:` commit for D17 the theorems also had to exclude the very
+first 4 ms of the datacake epoch, where the saturating subtraction in the cut-off kept the counter
+of the newest stamp and refused older events of the same tick.) -/
+def ValidStamp (t : Nat) : Prop := t < 18446744073709551616 ∧ fractional t < 250
 
 theorem repack (t : Nat) (h1 : t < 18446744073709551616) (h2 : fractional t < 250) :
     pack (dts t) (counter t) (node t) = t := by
@@ -147,8 +149,8 @@ theorem tryUpdateMax_inv (F : Nat) (s : OrSwot) (src ts : Nat) (S : Nat → Prop
 
 /-- A stamp whose time is less than `F` behind `m`'s (same node) is not below `forgive F m`. -/
 theorem not_lt_forgive (F t m : Nat) (hF : F % 4 = 0) (ht : ValidStamp t)
-    (hm : m < 18446744073709551616) (hclose : dts m < dts t + F) : ¬ t < forgive F m := by
-  obtain ⟨h1, h2, h3⟩ := ht
+    (hm : m < 18446744073709551616) (hnode : node m = node t) (hclose : dts m < dts t + F) : ¬ t < forgive F m := by
+  obtain ⟨h1, h2⟩ := ht
   have hrep := repack t h1 h2
   have hs := seconds_lt t h1
   have hms : dts m / 1000 < 4294967296 + 2 := by
@@ -158,11 +160,16 @@ theorem not_lt_forgive (F t m : Nat) (hF : F % 4 = 0) (ht : ValidStamp t)
     unfold dts partsAsDuration; omega
   have h4 := dts_mod4 m
   have h4t := dts_mod4 t
-  have hlt : pack (dts m - F) (counter m) (node m) < pack (dts t) (counter t) (node t) :=
-    pack_lt_of_ms_lt (dts m - F) (dts t) (counter m) (node m) (counter t) (node t) hdt
-      (counter_lt m) (node_lt m) (by omega) h4t (by omega)
   unfold forgive
-  omega
+  split
+  · -- the cut-off is the very first stamp of the node: nothing of that node is below it
+    have hp : pack 0 0 (node m) = node m := by unfold pack durSecs durFrac; omega
+    rw [hp, hnode]
+    unfold node; omega
+  · have hlt : pack (dts m - F) (counter m) (node m) < pack (dts t) (counter t) (node t) :=
+      pack_lt_of_ms_lt (dts m - F) (dts t) (counter m) (node m) (counter t) (node t) hdt
+        (counter_lt m) (node_lt m) (by omega) h4t (by omega)
+    omega
 
 /-- The consequence used by every LWW theorem: if every stamp in `S` from `t`'s origin is less than
 `F` newer than `t`, the state does not refuse `t` as too old. -/
@@ -178,7 +185,7 @@ theorem not_before_of_window (F : Nat) (s : OrSwot) (S : Nat → Prop) (h : Vers
     obtain ⟨m, hm1, hm2, hm3⟩ := h.safe _ _ hg
     rw [hm3]
     rcases hm1 with hm1 | hm1
-    · exact not_lt_forgive F t m hF ht (hS m hm1).1 ((hS m hm1).2 hm2)
+    · exact not_lt_forgive F t m hF ht (hS m hm1).1 hm2 ((hS m hm1).2 hm2)
     · subst hm1
       have hp : pack 0 0 (node t) = node t := by unfold pack durSecs durFrac; omega
       have hf : forgive F (node t) = node t := by
@@ -187,7 +194,7 @@ theorem not_before_of_window (F : Nat) (s : OrSwot) (S : Nat → Prop) (h : Vers
         have h1 : dts (node t) = 0 := by unfold dts partsAsDuration seconds fractional; omega
         have h2 : counter (node t) = 0 := by unfold counter; omega
         have h3 : node (node t) = node t := by unfold node; omega
-        rw [h1, h2, h3]; simpa using hp
+        rw [h1, h2, h3]; split <;> simpa using hp
       rw [hp, hf]
       unfold node; omega
 
